@@ -271,8 +271,16 @@ class FullRunner(Runner):
         def add_datapoint(label, sub, dp):
             if runner.probing:
                 return None
-            runner.records.append((label, sub, dp))
-            return orig_add(label, sub, dp)
+            # every CALL is one occurrence: the series it names must afterwards be one entry longer and end with
+            # this very datapoint (also when an equal datapoint is already its last entry)
+            def series():
+                return env.simulation_data.get(label, {}).get(sub, ())
+            before = len(series())
+            r = orig_add(label, sub, dp)
+            after = series()
+            ok = len(after) == before + 1 and after[-1] == dp
+            runner.records.append((label, sub, dp, '' if ok else f' not-stored(series-grew-by={len(after) - before})'))
+            return r
         env.add_datapoint = add_datapoint
 
     # ---- registration bookkeeping -----------------------------------------------------------
@@ -807,8 +815,8 @@ class FullRunner(Runner):
 
     def flush_results(self):
         super().flush_results()
-        for label, sub, dp in self.records:
-            self.out.append(self.rec_line(label, sub, dp))
+        for label, sub, dp, marker in self.records:
+            self.out.append(self.rec_line(label, sub, dp) + marker)
         self.records = []
 
     def dump_ext(self):
